@@ -430,6 +430,7 @@ def c11(tier, rng, fam='C11'):
                 out.append(b.q().done())
     out += lost_reset(fam, nmax)
     out += eager_caller_early_return(fam, tier)
+    out += stuck_handler_with_deadline(fam)
     out += ends_while_another_write_is_stuck(fam)
     # a peer that sends more than expected: several replies to one unary call, extra stream envelopes
     for extra in (1, 2, 3, 4):
@@ -1695,5 +1696,34 @@ def slow_reader(fam, tier='quick'):
                 b.step('recv', c=1)
                 if others:
                     b.step('recv', c=5, n=25).step('close', c=5).step('recv', c=5)
+                out.append(b.q().done())
+    return out
+
+
+def stuck_handler_with_deadline(fam):
+    """a handler that stops receiving and does not return even when its context ends (it is stuck in something of its
+    own) while the caller keeps sending; the caller's deadline (it travels with the request) or cancellation ends the
+    stream: from then on the connection is free again - the read loop does not wait for that handler"""
+    out = []
+    for kind in ('cs', 'bidi'):
+        for n in (2, 3, 6):
+            for how in ('deadline', 'cancel'):
+                if how == 'cancel' and n > 1:
+                    # (a reset that is queued behind >= 2 unread envelopes never gets through: known finding D23)
+                    continue
+                b = B(fam, '%s handler stuck after 1 of %d messages, stream ended by %s' % (kind, n, how), ser=True, nocap=True)
+                b.step('sopen', c=1, kind=kind, hp=[dict(o='recv'), dict(o='stall'), ret()], **({'to': 400} if how == 'deadline' else {}))
+                for i in range(n):
+                    b.step('send', c=1, pay='m%d' % i)
+                b.q()
+                if how == 'deadline':
+                    b.step('adv', ms=401)
+                else:
+                    b.step('cancel', c=1)
+                b.q()
+                b.step('ucall', c=9, pay='probe', to=H, hp=[ret(pay='served')])
+                b.q()
+                b.step('sopen', c=8, kind='bidi', hp=[dict(o='echo')])
+                b.step('send', c=8, pay='x').step('recv', c=8).step('close', c=8).step('recv', c=8)
                 out.append(b.q().done())
     return out
